@@ -11,7 +11,7 @@ use roughenough::stats::{AggregatedStats, ClientStats, PerClientStats, Reporter,
 use roughenough::Error;
 use serde::{Deserialize, Serialize};
 use serde_json::Value;
-use std::collections::BTreeMap;
+use std::collections::{BTreeMap, HashMap};
 use std::net::IpAddr;
 use std::sync::Arc;
 use std::time::Duration;
@@ -311,6 +311,7 @@ fn check_traffic(ctx: &mut Ctx, c: &TrafficCase) -> Res {
         Err(e) => return ctx.fail("server-new-failed", e),
     };
     let (mut datagrams, mut classic, mut ietf, mut bytes) = (0u64, 0u64, 0u64, 0u64);
+    let (mut p0_classic, mut p0_ietf) = (0u64, 0u64);
     let mut health_done = 0u64;
     if let Some(port) = hc_port {
         use std::io::Read;
@@ -346,13 +347,38 @@ fn check_traffic(ctx: &mut Ctx, c: &TrafficCase) -> Res {
     for step in &c.steps {
         let sent = materialize(&lab, step, 16);
         let sends: Vec<(usize, Vec<u8>)> = sent.iter().map(|s| (s.sock, s.bytes.clone())).collect();
-        let expect = sent.iter().filter(|s| s.standard.is_some()).count();
+        let expect = sent.iter().filter(|s| s.standard.is_some() && s.sock != PORT0).count();
+        // requests arriving with source port 0 are accepted and answered, but the answer cannot be sent: they count
+        // as valid requests and as failed send attempts, never as responses
+        let p0: Vec<&super::server::Sent> = sent.iter().filter(|s| s.sock == PORT0).collect();
         let res = match lab.step(&sends, if c.fault == 0 { expect } else { 0 }) {
             Ok(r) => r,
             Err(StepErr::Panic(p)) => return ctx.fail(format!("process-events-panic|{}", panic_site(&p)), p),
             Err(StepErr::Wedged(m)) => return ctx.fail("wedged", m),
         };
         datagrams += res.sent_ok as u64 + 1;
+        if res.port0_sent != p0.len() {
+            // raw sockets unavailable (or a send failed): the case cannot be accounted for exactly
+            ctx.class("c17:traffic:port0-unavailable");
+            return Ok(());
+        }
+        for s in &p0 {
+            match (&s.standard, &s.wellformed) {
+                (Some(i), _) => {
+                    if i.proto == Proto::Ietf {
+                        p0_ietf += 1
+                    } else {
+                        p0_classic += 1
+                    }
+                }
+                (None, Some(_)) => {
+                    // may or may not be accepted, and the reply that would tell cannot be observed
+                    ctx.class("c17:traffic:port0-borderline-request");
+                    return Ok(());
+                }
+                (None, None) => {}
+            }
+        }
         for r in res.replies.iter().flatten().chain(res.sentinel_replies.iter()) {
             if r.len() >= 8 && &r[0..8] == b"ROUGHTIM" {
                 ietf += 1
@@ -388,7 +414,7 @@ fn check_traffic(ctx: &mut Ctx, c: &TrafficCase) -> Res {
                 }
             }
         }
-        let want = [ietf, classic, datagrams - classic - ietf, 0, 0, health_done, ietf, classic, bytes];
+        let want = [ietf + p0_ietf, classic + p0_classic, datagrams - classic - ietf - p0_classic - p0_ietf, p0_classic + p0_ietf, 0, health_done, ietf, classic, bytes];
         if sum != want {
             return ctx.fail(
                 "snapshots-plus-held-differ-from-traffic",
@@ -402,7 +428,8 @@ fn check_traffic(ctx: &mut Ctx, c: &TrafficCase) -> Res {
     let st = lab.server.verif_stats();
     let got = totals(st);
     // every accepted request is answered exactly once (C09), so replies observed == requests accepted
-    let want = [classic + ietf, ietf, classic, datagrams - classic - ietf, health_done, 0, 0, classic + ietf, ietf, classic, bytes];
+    let p0 = p0_classic + p0_ietf;
+    let want = [classic + ietf + p0, ietf + p0_ietf, classic + p0_classic, datagrams - classic - ietf - p0, health_done, p0, 0, classic + ietf, ietf, classic, bytes];
     if got != want {
         return ctx.fail(
             "recorded-totals-differ-from-traffic",
@@ -416,15 +443,93 @@ fn check_traffic(ctx: &mut Ctx, c: &TrafficCase) -> Res {
         // all traffic came from 127.0.0.1
         let lo: IpAddr = "127.0.0.1".parse().unwrap();
         let per = counters(st.stats_for_client(&lo));
-        if per[0] != ietf || per[1] != classic || per[5] != health_done || per[8] != bytes || st.total_unique_clients() != 1 {
+        if per[0] != ietf + p0_ietf || per[1] != classic + p0_classic || per[3] != p0 || per[5] != health_done || per[8] != bytes || st.total_unique_clients() != 1 {
             return ctx.fail("per-client-entry-differs-from-traffic", format!("entry for 127.0.0.1 = {:?}, unique clients {}", per, st.total_unique_clients()));
         }
     }
     if c.ticks > 0 {
         ctx.class("c17:traffic:stats=false:across-timer-periods");
     }
+    if p0 > 0 {
+        ctx.class("c17:traffic:with-failed-sends");
+    }
     ctx.class(&format!("c17:traffic:stats={}:fault={}:{}", c.stats, if c.fault > 0 { "on" } else { "off" }, if classic > 0 && ietf > 0 && datagrams > classic + ietf { "mixed+invalid" } else { "simple" }));
     ctx.nontrivial(&("traffic", c.stats, datagrams, classic, ietf, bytes));
+    Ok(())
+}
+
+/// many client addresses within one statistics period, with the queue capacity the server binary has for one worker
+#[derive(Debug, Clone, Serialize, Deserialize)]
+pub struct ManyClients {
+    pub addrs: u16,
+    pub queue_cap: u8,
+    /// datagrams per address
+    pub per_addr: u8,
+}
+
+fn check_many_clients(ctx: &mut Ctx, c: &ManyClients) -> Res {
+    ctx.eval();
+    if !NET_ISOLATED.load(std::sync::atomic::Ordering::SeqCst) {
+        ctx.class("c17:many-clients:skipped-no-private-netns");
+        return Ok(());
+    }
+    let cfg = LabCfg { seed: vec![0x33; 32], batch_size: 64, client_stats: true, status_interval: Duration::from_secs(1), queue_cap: c.queue_cap.max(1) as usize, ..Default::default() };
+    let mut lab = match Lab::new(cfg, 1) {
+        Ok(l) => l,
+        Err(e) => return ctx.fail("server-new-failed", e),
+    };
+    // one datagram that is not a request from each of `addrs` distinct loopback addresses (127.1.x.y)
+    let mut sent = 0usize;
+    for a in 0..c.addrs as u32 {
+        let ip = std::net::Ipv4Addr::new(127, 1 + (a >> 16) as u8, (a >> 8) as u8, a as u8);
+        let sock = match std::net::UdpSocket::bind((ip, 0)) {
+            Ok(s) => s,
+            Err(_) => {
+                ctx.class("c17:many-clients:cannot-bind-loopback-alias");
+                return Ok(());
+            }
+        };
+        for _ in 0..c.per_addr.max(1) {
+            if sock.send_to(&[0x42], lab.addr).is_ok() {
+                sent += 1;
+            }
+        }
+    }
+    if sent != c.addrs as usize * c.per_addr.max(1) as usize {
+        return Ok(());
+    }
+    if let Err(e) = lab.step(&[], 0) {
+        return ctx.fail("process-events-failed", format!("{:?}", e));
+    }
+    // across exactly one statistics timer period (100 ms): the worker publishes what it holds
+    let end = std::time::Instant::now() + Duration::from_millis(115);
+    while std::time::Instant::now() < end {
+        if let Err(p) = lab.idle_pump(1) {
+            return ctx.fail(format!("process-events-panic|{}", panic_site(&p)), p);
+        }
+    }
+    let mut per: HashMap<IpAddr, u64> = HashMap::new();
+    for (ip, cs) in lab.server.verif_stats().iter() {
+        *per.entry(*ip).or_insert(0) += cs.invalid_requests as u64;
+    }
+    let mut snaps = 0;
+    while let Some(snap) = lab.queue.pop() {
+        snaps += 1;
+        for cs in &snap {
+            *per.entry(cs.ip_addr).or_insert(0) += cs.invalid_requests as u64;
+        }
+    }
+    let lo: IpAddr = "127.0.0.1".parse().unwrap();
+    per.remove(&lo);
+    let complete = per.values().filter(|v| **v == c.per_addr.max(1) as u64).count();
+    if per.len() != c.addrs as usize || complete != c.addrs as usize {
+        return ctx.fail(
+            "published-snapshots-lose-clients",
+            format!("{} addresses sent {} datagram(s) each within one statistics period (queue capacity {}): what the worker still holds plus the {} snapshot(s) it published accounts for {} addresses, {} of them completely", c.addrs, c.per_addr.max(1), c.queue_cap, snaps, per.len(), complete),
+        );
+    }
+    ctx.class(&format!("c17:many-clients:{}:snapshots={}", if c.addrs > 2048 { ">2048" } else if c.addrs > 1024 { ">1024" } else { "<=1024" }, snaps.min(3)));
+    ctx.nontrivial(&(c.addrs, c.queue_cap, c.per_addr));
     Ok(())
 }
 
@@ -471,6 +576,14 @@ pub fn run(ctx: &mut Ctx) -> Vec<Violation> {
         ctx.sample("exh-histories", 1, &History { limit: 1, ops: vec![Op { kind: Kind::ClassicReq, addr: 0, bytes: 7 }, Op { kind: Kind::RfcResp, addr: 1, bytes: 7 }], clears: vec![] });
     }
     out.extend(v);
+    // many client addresses within one statistics period, worker-to-reporter queue as small as the binary's
+    {
+        let mut cases = vec![];
+        for (addrs, queue_cap, per_addr) in [(300u16, 2u8, 1u8), (1024, 2, 1), (1025, 2, 2), (2048, 2, 1), (2049, 2, 1), (2100, 2, 1), (3100, 2, 1), (2100, 4, 1), (5000, 2, 1), (4100, 4, 2)] {
+            cases.push(ManyClients { addrs, queue_cap, per_addr });
+        }
+        out.extend(run_enum(ctx, "many-clients", cases.len() as u64, |i| cases[i as usize].clone(), |ctx, c| check_many_clients(ctx, c)));
+    }
     // random long histories
     let hist = (1u8..=3, prop_oneof![3 => vec_of(op_strategy(false).boxed(), 0usize..=60), 1 => vec_of(op_strategy(false).boxed(), 1_000usize..=10_000)]).prop_flat_map(|(limit, ops)| {
         let n = ops.len().max(1) as u16;
@@ -487,7 +600,7 @@ pub fn run(ctx: &mut Ctx) -> Vec<Violation> {
     let split_csv = (1u8..=4, vec_of((0u8..4, op_strategy(false), prop::bool::weighted(0.15)).boxed(), 1usize..=60)).prop_map(|(workers, events)| SplitCase { csv: true, workers, events });
     out.extend(run_prop(ctx, "worker-splits-csv", t.pick(400, 8_000), 200, split_csv, |ctx, c| check_split(ctx, c)));
     // traffic served by an in-process server
-    let step = vec_of((0u8..16, prop_oneof![3 => std_req().prop_map(Dgram::Std), 2 => any_dgram()]).prop_map(|(sock, d)| Send { sock, d }).boxed(), 0usize..=40);
+    let step = vec_of((super::server::sock_strategy(16), prop_oneof![3 => std_req().prop_map(Dgram::Std), 2 => any_dgram()]).prop_map(|(sock, d)| Send { sock, d }).boxed(), 0usize..=40);
     let traffic = (seed32(), prop::sample::select(vec![1u8, 3, 16, 64]), prop::bool::weighted(0.15), proptest::collection::vec(step, 1..=3), prop_oneof![3 => Just(0u8), 1 => 1u8..=4], prop_oneof![3 => Just(0u8), 1 => 1u8..=50], prop_oneof![24 => Just(0u8), 1 => 1u8..=2]).prop_map(|(seed, batch_size, stats, steps, health_checks, fault, ticks)| TrafficCase { health_checks, seed, batch_size, stats, steps, fault, ticks });
     out.extend(run_prop(ctx, "traffic", t.pick(8_000, 64_000), 200, traffic, |ctx, c| {
         ctx.sample("traffic", 1, &(c.stats, c.batch_size, c.steps.iter().map(|s| s.len()).collect::<Vec<_>>()));
@@ -501,6 +614,7 @@ pub fn replay(ctx: &mut Ctx, sub: &str, case: &Value) -> Res {
     match sub {
         "exh-histories" | "random-histories" => replay_case::<History, _>(ctx, case, |ctx, h| check_history(ctx, h)),
         "worker-splits" | "worker-splits-csv" => replay_case::<SplitCase, _>(ctx, case, |ctx, c| check_split(ctx, c)),
+        "many-clients" => replay_case::<ManyClients, _>(ctx, case, |ctx, c| check_many_clients(ctx, c)),
         "traffic" => replay_case::<TrafficCase, _>(ctx, case, |ctx, c| check_traffic(ctx, c)),
         _ => Err(viol("bad-replay-file", format!("unknown sub {}", sub))),
     }
